@@ -135,6 +135,8 @@ pub struct Sim {
     pub drain_logs: bool,
     /// last client-event sequence number seen by server logic per sender
     pub last_from: BTreeMap<Entity, u32>,
+    /// (kind, seq, sender) of client events seen by server logic since last cleared (C06)
+    pub from_log: Vec<(CK, u32, Entity)>,
 }
 
 /// 8 secret bytes derived from the write id (high bit set in every byte), followed by padding.
@@ -220,6 +222,7 @@ impl Sim {
             last_update_max_alloc: 0,
             drain_logs: false,
             last_from: BTreeMap::new(),
+            from_log: Vec::new(),
         };
         sim.warm_up();
         sim
